@@ -392,7 +392,7 @@ pub fn shrink_with(r: &RunResult, target: &str, exec: &mut dyn FnMut(&RunCfg, &[
         // single task
         let mut cand = ops.clone();
         match &mut cand[i] {
-            Op::New { task, .. } | Op::Clone { task, .. } | Op::Conv { task, .. } | Op::Relocate { task, .. } | Op::Drop { task, .. } => {
+            Op::New { task, .. } | Op::Clone { task, .. } | Op::CloneFrom { task, .. } | Op::Conv { task, .. } | Op::Relocate { task, .. } | Op::Drop { task, .. } => {
                 if *task != 0 {
                     *task = 0;
                     if let Some(v) = test(&cfg, &cand) {
